@@ -127,6 +127,12 @@ fn callback<P: Pad>(kind: CbKind, node: &Node<P>) {
     let o = node.id;
     let ok = node.canary.get() == CANARY ^ o;
     emit(json!({"e": "cb", "cb": kind.name(), "o": o, "it": is_tracing(), "ok": ok}));
+    if kind == CbKind::Drop && ok && world::PENDING_NEW.with(|c| c.get()) == o {
+        // The value never reached an allocation: Cc::new is unwinding (its automatic collection panicked)
+        node.canary.set(DEAD);
+        emit(json!({"e": "cbx", "cb": "drop", "o": o, "panic": false}));
+        return;
+    }
     world::push_ctx(o, node as *const Node<P> as *const (), kind);
     let mut g = CbGuard { cb: kind.name(), o, done: false };
     if !ok {
@@ -204,4 +210,44 @@ impl<P: Pad> Drop for Node<P> {
     fn drop(&mut self) {
         callback(CbKind::Drop, &*self);
     }
+}
+
+/// Body of the closure given to Cc::new_cyclic.
+#[cfg(feature = "weak")]
+pub fn closure_body<P: Pad>(o: u32, ns: u32, np: u32, nw: u32, wk: &weak::Weak<Node<P>>) -> Node<P> {
+    emit(json!({"e": "cb", "cb": "closure", "o": o, "it": is_tracing(), "ok": true}));
+    world::push_ctx(o, std::ptr::null(), CbKind::Closure);
+    let prev = world::PROVIDED.with(|c| c.replace(wk as *const weak::Weak<Node<P>> as *const ()));
+    struct G(*const (), bool, u32);
+    impl Drop for G {
+        fn drop(&mut self) {
+            world::PROVIDED.with(|c| c.set(self.0));
+            world::pop_ctx();
+            if !self.1 {
+                emit(json!({"e": "cbx", "cb": "closure", "o": self.2, "panic": true}));
+            }
+        }
+    }
+    let mut g = G(prev, false, o);
+    loop {
+        match director::next_in_cb::<P>(CbKind::Closure, o) {
+            Decision::Do(op) => world::exec::<P>(&op),
+            Decision::Return => break,
+            Decision::Panic => {
+                g.1 = true;
+                emit(json!({"e": "cbx", "cb": "closure", "o": o, "panic": true}));
+                std::panic::panic_any(Injected);
+            }
+        }
+    }
+    let sw = nw > 0 && director::closure_self_weak(o);
+    let node = Node::<P>::new(o, ns, np, nw);
+    if sw {
+        let mut ws = node.wslots.borrow_mut();
+        ws[0].target = o;
+        ws[0].inner = Some(wk.clone());
+    }
+    g.1 = true;
+    emit(json!({"e": "cbx", "cb": "closure", "o": o, "panic": false, "sw": sw}));
+    node
 }
